@@ -894,6 +894,141 @@ def augmented_assignment_is_pure(k, is_async):
     return out
 
 
+# ------------------------------------------------------------------------------ C01 / C15: corner cases of the describing function
+def describing_function_corner_cases(k, is_async):
+    """(a) a describing function returning an EMPTY list / dict literal: as in the plain function every call returns a fresh
+    container (the caller may mutate what it got); (b) a function decorated with unpack_to=2 and called with
+    twz_unpack_to=3: the call site's value wins, as documented for the reserved twz_ keywords"""
+    out = []
+    call = (lambda th: in_thread(lambda: asyncio.run(th()), 10)) if is_async else (lambda th: in_thread(th, 10))
+    for kind_, mk in (("list", lambda: []), ("dict", lambda: {})):
+        fx = tawazi.xn(named(lambda x: x, "sc_cc_f%d%s" % (k, kind_)))
+
+        def mkdesc(mk_, fx_):
+            def desc(x):
+                fx_(x)
+                return mk_()
+            return desc
+        try:
+            d = tawazi.dag(named(mkdesc(mk, fx), "sc_cc_%d%s" % (k, kind_)), is_async=is_async)
+        except BaseException as e:  # noqa: BLE001
+            out.append("a describing function returning an empty %s does not build: %s" % (kind_, type(e).__name__))
+            continue
+        r1 = call(lambda: d(1))
+        if r1[0] == "ok" and r1[1] == mk():
+            if kind_ == "list":
+                r1[1].append("mine")
+            else:
+                r1[1]["mine"] = 1
+        r2 = call(lambda: d(2))
+        if r1[0] != "ok" or r2[0] != "ok" or r2[1] != mk():
+            out.append("a describing function returning an empty %s: first call %r, second call (after the caller filled what the first one returned) %r; the plain function returns an empty %s each time" % (kind_, r1, r2, kind_))
+
+    def spread(n):
+        return tuple(range(n))
+    sx = tawazi.xn(named(spread, "sc_cc_s%d" % k), unpack_to=2)
+    gx = tawazi.xn(named(lambda *a: a, "sc_cc_g%d" % k))
+
+    def desc2():
+        a, b = sx(2)
+        c, d_, e = sx(3, twz_unpack_to=3)
+        return gx(a, b, c, d_, e)
+    try:
+        d2 = tawazi.dag(named(desc2, "sc_cc2_%d" % k), is_async=is_async)
+        r = call(lambda: d2())
+        if r != ("ok", (0, 1, 0, 1, 2)):
+            out.append("unpack_to=2 on the decorator and twz_unpack_to=3 at one call site: the DAG returned %r, the plain function (0, 1, 0, 1, 2)" % (r,))
+    except BaseException as e:  # noqa: BLE001
+        out.append("unpack_to=2 on the decorator and twz_unpack_to=3 at one call site: the DAG does not build (%s: %s)" % (type(e).__name__, str(e)[:80]))
+    return out
+
+
+# ------------------------------------------------------------------------------ C04: operator nodes are nodes like any other
+def operator_nodes_respect_resource(k, is_async):
+    """`a + b`, `a < b` in a describing function are nodes with the default (thread) resource: the operator runs on a
+    pool thread, never on the thread that invoked the DAG / runs the event loop"""
+    seen = {}
+
+    class V:
+        def __init__(self, v):
+            self.v = v
+
+        def __add__(self, o):
+            seen["add"] = threading.get_ident()
+            return V(self.v + o.v)
+
+        def __lt__(self, o):
+            seen["lt"] = threading.get_ident()
+            return self.v < o.v
+
+    ax = tawazi.xn(named(lambda: V(1), "sc_op_a%d" % k))
+    bx = tawazi.xn(named(lambda: V(2), "sc_op_b%d" % k))
+    invoker = {}
+
+    def desc():
+        a, b = ax(), bx()
+        return a + b, a < b
+    d = tawazi.dag(named(desc, "sc_op%d" % k), max_concurrency=2, is_async=is_async)
+
+    def go():
+        invoker["id"] = threading.get_ident()
+        return asyncio.run(d()) if is_async else d()
+    st = in_thread(go, 10)
+    if st[0] != "ok":
+        return ["DAG with operator nodes: %r" % (st,)]
+    decl = {i_: x_.resource.value for i_, x_ in d.exec_nodes.items() if ">!>" not in i_ and not i_.startswith("sc_op_")}
+    bad = sorted(op for op, tid in seen.items() if tid == invoker["id"])
+    if bad and all(v_ == "thread" for v_ in decl.values()):
+        return ["operator node(s) %s declared with the thread resource (%s) ran on the thread that invoked the DAG" % (bad, decl)]
+    return []
+
+
+# ------------------------------------------------------------------------------ C09: completions a few microseconds apart
+def near_simultaneous_completions(k, seconds):
+    """two parallel thread nodes that finish a few microseconds apart (the gap is swept, tiny switch interval): every call returns
+    (a completion that arrives while the scheduler is retiring another one must not be lost)"""
+    import sys
+    state = {"a_done": False, "delay": 0}
+
+    def a():
+        time.sleep(0.001)
+        state["a_done"] = True
+        return 1
+
+    def b():
+        t0 = time.time()
+        while not state["a_done"] and time.time() - t0 < 5:
+            pass
+        for _ in range(state["delay"]):
+            pass
+        return 2
+    ax = tawazi.xn(named(a, "sc_ns_a%d" % k))
+    bx = tawazi.xn(named(b, "sc_ns_b%d" % k))
+    jx = tawazi.xn(named(lambda x, y: x + y, "sc_ns_j%d" % k))
+
+    def desc():
+        return jx(ax(), bx())
+    d = tawazi.dag(named(desc, "sc_ns%d" % k), max_concurrency=3)
+    old = sys.getswitchinterval()
+    sys.setswitchinterval(1e-6)
+    n = 0
+    try:
+        t_end = time.time() + seconds
+        while time.time() < t_end:
+            for delay in range(0, 1500, 10):
+                state["a_done"] = False
+                state["delay"] = delay
+                st = in_thread(lambda: d(), 6)
+                n += 1
+                if st != ("ok", 3):
+                    return ["call #%d of a DAG whose two thread nodes finish about %d loop iterations apart: %r (a completion was lost: the scheduler spins / waits with nothing in flight)" % (n, delay, st)]
+                if time.time() > t_end:
+                    break
+    finally:
+        sys.setswitchinterval(old)
+    return []
+
+
 def run(pid, tier, seed, res):
     n = 2 if tier == "quick" else 8
     for k in range(n):
@@ -923,6 +1058,10 @@ def run(pid, tier, seed, res):
         if pid in ("C15", "C01"):
             for fl in (False, True):
                 res.evaluations += 1
+                for msg in describing_function_corner_cases(2 * k + int(fl), fl):
+                    res.hit(pid, "monitor", msg, dict(engine="scenario", kind="monitor", scenario="describing_function_corner_cases", k=k, is_async=fl))
+            for fl in (False, True):
+                res.evaluations += 1
                 for msg in augmented_assignment_is_pure(2 * k + int(fl), fl):
                     res.hit(pid, "monitor", msg, dict(engine="scenario", kind="monitor", scenario="augmented_assignment_is_pure", k=k, is_async=fl))
         if pid in ("C02", "C10"):
@@ -940,6 +1079,23 @@ def run(pid, tier, seed, res):
                 res.evaluations += 1
                 for p_, msg in wide_parallelism(2 * k + int(fl), fl):
                     res.hit(p_, "monitor", msg, dict(engine="scenario", kind="monitor", scenario="wide_parallelism", k=k, is_async=fl))
+            # ... and the same with profiling switched on for every node
+            tawazi.cfg.TAWAZI_PROFILE_ALL_NODES = True
+            try:
+                res.evaluations += 1
+                for p_, msg in wide_parallelism(2 * k + 7, False):
+                    res.hit(p_, "monitor", "TAWAZI_PROFILE_ALL_NODES on: " + msg, dict(engine="scenario", kind="monitor", scenario="wide_parallelism", k=k, is_async=False, profile=True))
+            finally:
+                tawazi.cfg.TAWAZI_PROFILE_ALL_NODES = False
+        if pid == "C04":
+            for fl in (False, True):
+                res.evaluations += 1
+                for msg in operator_nodes_respect_resource(2 * k + int(fl), fl):
+                    res.hit("C04", "monitor", msg, dict(engine="scenario", kind="monitor", scenario="operator_nodes_respect_resource", k=k, is_async=fl))
+        if pid == "C09" and k == 0:
+            res.evaluations += 1
+            for msg in near_simultaneous_completions(k, 4.0 if tier == "quick" else 30.0):
+                res.hit("C09", "monitor", msg, dict(engine="scenario", kind="monitor", scenario="near_simultaneous_completions", k=k))
         if pid in ("C11", "C03"):
             for fl in (False, True):
                 res.evaluations += 1
